@@ -283,6 +283,61 @@ def resent_contents(d1: bytes, d2: bytes, mid1: int, mid2: int, late: bool, mi: 
     return ok
 
 
+@cond(bounds='the fragments actually reach the transport: a C-STORE-RQ whose data set makes n = 1..40 P-DATA-TF PDUs (n symbolic; '
+             'maximum length 64) is handed to a REAL provider (Sta6, stepped in the calling thread) through '
+             'Association.send; the octets written to the socket are exactly the PDUs of the message, each once, in '
+             'order - from memory and from a file (symbolic)', timeout=240)
+def provider_sends_every_fragment(n: int, as_file: bool) -> bool:
+    """
+    pre: 1 <= n <= 40
+    post: _
+    """
+    from vt import sim
+    n = pick(n, 1, 40)
+    as_file = bool(pick(int(as_file), 0, 1))
+    with sim._no_tracing():
+        ok = _provider_sends(n, as_file)
+    deep(ok and n == 17)
+    return ok
+
+
+def _provider_sends(n, as_file):
+    from vt import sim
+    from vt.harness import live as L
+    from pynetdicom2 import dulprovider, fsm as fsm_
+    L.install(sim.SimClock(1000))
+    sock = L.StepSocket()
+    prov = sim.make_provider(sock)
+    pump = L.Pump(prov, sock)
+    prov.event.clear()
+    prov.state_machine.current_state = fsm_.States.STA_6
+    msg = dm.CStoreRQMessage()
+    msg.message_id = 3
+    msg.sop_class_uid = '1.2.840.10008.5.1.4.1.1.2'
+    msg.affected_sop_instance_uid = '1.2.3'
+    msg.priority = 0
+    msg.set_length()
+    ncmd = len(list(msg.encode(5, 64)))
+    if n < ncmd:
+        return True
+    data = bytes((7 * i + 1) % 256 for i in range((n - ncmd) * 58))
+    msg.data_set = (_file_of(data) if as_file else data) if data else None
+    a = make_assoc(64)
+    a.dul = prov
+    a.send(msg, 5)
+    pump.run()
+    ref_msg = dm.CStoreRQMessage()
+    ref_msg.message_id = 3
+    ref_msg.sop_class_uid = '1.2.840.10008.5.1.4.1.1.2'
+    ref_msg.affected_sop_instance_uid = '1.2.3'
+    ref_msg.priority = 0
+    ref_msg.data_set = data if data else None
+    ref_msg.set_length()
+    want = [p.encode() for p in ref_msg.encode(5, 64)]
+    return pump.err is None and len(want) == max(n, ncmd) and list(sock.sent) == want \
+        and prov.state_machine.current_state == fsm_.States.STA_6
+
+
 def _dl():
     return 6 if tier() == 'thorough' else 4
 
